@@ -738,6 +738,11 @@ class C18Executor(Executor):
         if c.target.endswith("::SharePointRestClient.list_files_filtered") and len(args) >= 2 and isinstance(args[1], VRef) \
                 and st.obj(args[1].ref).kind == "obj" and st.obj(args[1].ref).cls == "FileFilter":
             return self.delegate_filtered(st, c, args, kwargs, node)
+        if c.target.endswith("::SharePointRestClient.fetch_access_token") and self.inline_depth == 0:
+            st.ghost["token_fetches"] = st.ghost.get("token_fetches", 0) + 1            # round 7: `_ensure_token` fetches only when needed
+        if c.target.endswith("::SharePointRestClient._send") and self.inline_depth == 0:
+            rq = kwargs.get("request", args[1] if len(args) > 1 else None)
+            st.ghost["sent"] = st.ghost.get("sent", ()) + (rq,)                          # round 7: requests handed to the transport wrapper
         self.applying = getattr(self, "applying", 0) + 1
         try:
             return super().apply_contract(st, c, args, kwargs, node)
@@ -1982,6 +1987,12 @@ def m_new_request(ex, st, args, kwargs, node):
     r = VExt("Request")
     if isinstance(url, VStr):
         st.assume(FULL_URL(r.t) == url.t)
+    h = kwargs.get("headers", args[2] if len(args) > 2 else None)
+    auth = None
+    if isinstance(h, VRef) and st.obj(h.ref).kind == "dict" and st.obj(h.ref).data is not None:
+        auth = st.obj(h.ref).data.get("Authorization")
+    # the Authorization header of the new request object, when it is given as a dict with that key (definition on a fresh object)
+    st.ghost[("auth", r.t.get_id())] = auth if isinstance(auth, VStr) else None
     return [(st, r)]
 
 
@@ -2291,6 +2302,73 @@ def part_b(reg):
         note="token cached only after a successful, well-formed token response; any failure is of the client family",
     ))
 
+    # -- _ensure_token / _get_headers (round 7: own contracts; until now they were executed in place inside every caller) ------
+    def token_is_result(c):
+        t = self_field(c, "_access_token")
+        return z3.And(z3.BoolVal(isinstance(t, VStr) and isinstance(c.result, VStr)), same_value(t, c.result))
+
+    def cached_token_reused(c):
+        """With a token cached at entry no token request is made and the cache keeps it; without one exactly one is made
+        and the cache holds its (non-empty) answer."""
+        old, new = self_field(c, "_access_token", c.entry), self_field(c, "_access_token")
+        n = c.st.ghost.get("token_fetches", 0)
+        if isinstance(old, VStr):
+            return z3.And(z3.BoolVal(n == 0), same_value(old, new))
+        return z3.And(z3.BoolVal(n == 1 and isinstance(new, VStr)), z3.Length(new.t) > 0 if isinstance(new, VStr) else z3.BoolVal(False))
+
+    site_same = ("site-id-untouched", lambda c: same_value(self_field(c, "_site_id"), self_field(c, "_site_id", c.entry)))
+
+    out.append(FnContract(
+        target=f"{CLIENT}::SharePointRestClient._ensure_token",
+        params=[("self", p_client())],
+        ensures=[("returns-the-token-held-in-the-cache-afterwards", body_only(token_is_result)),
+                 ("a-cached-token-is-reused-without-a-request,-an-absent-one-is-fetched-once", body_only(cached_token_reused)),
+                 ("responses-closed", closed), site_same],
+        raises=family_raises(token_unchanged),
+        modifies=("self",), frame=token_frame,
+        result_maker=token_after_success,
+        note="token on demand: the cached one, else one fetch whose answer is cached; a failed fetch leaves the cache empty",
+    ))
+
+    def headers_authorise(c):
+        r, t = c.result, self_field(c, "_access_token")
+        if not (isinstance(r, VRef) and c.st.obj(r.ref).kind == "dict" and c.st.obj(r.ref).data is not None and isinstance(t, VStr)):
+            return z3.BoolVal(False)
+        a = c.st.obj(r.ref).data.get("Authorization")
+        if not isinstance(a, VStr):
+            return z3.BoolVal(False)
+        return a.t == z3.Concat(sv("Bearer "), t.t)
+
+    def headers_result(ex, st, ctx):
+        t = token_after_success(ex, st, ctx)
+        return VRef(st.alloc(HeapObj("dict", {"Authorization": VStr(z3.Concat(sv("Bearer "), t.t)), "Accept": VStr("application/json")}), ex.refs))
+
+    out.append(FnContract(
+        target=f"{CLIENT}::SharePointRestClient._get_headers",
+        params=[("self", p_client())],
+        ensures=[("authorization-is-bearer-+-the-token-held-in-the-cache-afterwards", body_only(headers_authorise)),
+                 ("token-present-afterwards", lambda c: json_token_rule(c)),
+                 ("responses-closed", closed), site_same],
+        raises=family_raises(token_unchanged),
+        modifies=("self",), frame=token_frame,
+        result_maker=headers_result,
+        note="request headers: `Authorization: Bearer <cached token>` (RFC 6750), the token obtained through _ensure_token",
+    ))
+
+    def requests_authorised(c):
+        """Every request this activation hands to `_send` carries `Authorization: Bearer <token in the cache afterwards>`."""
+        t = self_field(c, "_access_token")
+        sent = c.st.ghost.get("sent", ())
+        if not isinstance(t, VStr) or not sent:
+            return z3.BoolVal(False)
+        cs = []
+        for rq in sent:
+            a = c.st.ghost.get(("auth", rq.t.get_id())) if isinstance(rq, VExt) and rq.sort == "Request" else None
+            if a is None:
+                return z3.BoolVal(False)
+            cs.append(a.t == z3.Concat(sv("Bearer "), t.t))
+        return z3.And(cs)
+
     def json_token_rule(c):
         """_access_token afterwards: unchanged if there was one, else a freshly fetched non-empty token."""
         old, new = self_field(c, "_access_token", c.entry), self_field(c, "_access_token")
@@ -2309,7 +2387,8 @@ def part_b(reg):
         params=[("self", p_client()), ("url", p_str())],
         ensures=[("responses-closed", closed), ("token-present-afterwards", json_token_rule),
                  ("site-id-untouched", lambda c: same_value(self_field(c, "_site_id"), self_field(c, "_site_id", c.entry))),
-                 ("result-is-the-parsed-body", body_only(lambda c: z3.BoolVal(isinstance(c.result, VExt) and c.result.sort == "Json")))],
+                 ("result-is-the-parsed-body", body_only(lambda c: z3.BoolVal(isinstance(c.result, VExt) and c.result.sort == "Json"))),
+                 ("the-request-is-authorised-with-the-cached-token", body_only(requests_authorised))],
         raises=family_raises(json_raise_token_rule),
         modifies=("self",), frame=token_frame,
         result_maker=get_json_result,
